@@ -204,7 +204,7 @@ func (fr *Frame) specEnv(n *vnode, heap map[string]*Term) *SpecEnv {
 		var pick ssa.Value
 		if f == fr {
 			for _, c := range cands {
-				if phi, ok := c.(*ssa.Phi); ok && phi.Block() == n.b {
+				if phi, ok := c.(*ssa.Phi); ok && phi.Block() == n.b && phi.Comment == s {
 					pick = phi
 				}
 			}
@@ -223,7 +223,7 @@ func (fr *Frame) specEnv(n *vnode, heap map[string]*Term) *SpecEnv {
 			}
 			// if a phi at a dominating loop head carries the name, it wins over its inputs
 			for _, c := range live {
-				if _, ok := c.(*ssa.Phi); ok {
+				if phi, ok := c.(*ssa.Phi); ok && phi.Comment == s {
 					pick = c
 				}
 			}
@@ -442,7 +442,8 @@ func (e *Engine) verifyCase(fn *ssa.Function, con *Contract, choice []splitChoic
 		}
 		for i, en := range con.Ensures {
 			t := post.evalBool(en.E)
-			vc.Oblige("post", fmt.Sprintf("post.%d%s", i, g.suffix), reach, t, x.pos(fn.Pos()), en.Text)
+			ob := vc.Oblige("post", fmt.Sprintf("post.%d%s", i, g.suffix), reach, t, x.pos(fn.Pos()), en.Text)
+			ob.Env = post
 		}
 		for _, ic := range ifaceCons {
 			ie := ifaceEnv(ic, post, results)
@@ -450,7 +451,8 @@ func (e *Engine) verifyCase(fn *ssa.Function, con *Contract, choice []splitChoic
 			ie.old = oe
 			for i, en := range ic.Ensures {
 				t := ie.evalBool(en.E)
-				vc.Oblige("refines", fmt.Sprintf("refines.%s.%d%s", short(ic), i, g.suffix), reach, t, x.pos(fn.Pos()), en.Text)
+				ob := vc.Oblige("refines", fmt.Sprintf("refines.%s.%d%s", short(ic), i, g.suffix), reach, t, x.pos(fn.Pos()), en.Text)
+				ob.Env = ie
 			}
 		}
 	}
